@@ -142,6 +142,9 @@ class Driver:
         which = which or rng.choice(('prop1', 'prop2', 'prop3', 'exists_quantifier'))
         ids = {'prop1': [0, 1], 'prop2': [0, 1, 2], 'prop3': [0], 'exists_quantifier': [0]}[which]
         ids = [i for i in ids if rng.random() < 0.8] or ids[:1]
+        if rng.random() < 0.12:
+            ids.append(rng.choice((3, 4, 7)))      # a metavariable that does not occur in the schema: its plug is consumed all the same
+            self.c('instantiate_key_absent_from_premise')
         rng.shuffle(ids)
         if len(ids) >= 2 and ids != sorted(ids):
             self.c('instantiate_unsorted_keys')
